@@ -5,7 +5,7 @@ import time
 import z3
 
 from vlib import env, gen
-from vlib.zrun import explore_and_prove, all_eq, concretize, pyrepr, eq_term
+from vlib.zrun import explore_and_prove, wrapper_exc, all_eq, concretize, pyrepr, eq_term
 from vlib.zsym import Ctx, Int, Real, SymBool, SymNum, sym_int, model_value, lift
 
 META = {
@@ -533,8 +533,88 @@ def task_bounds(systems):
     return res
 
 
+REPLAY_CTOR = '''
+from chempy import Reaction, ReactionSystem
+rxs = %(rxs)s
+rxns = [Reaction(r[0], r[1], 7, inact_reac=r[2], inact_prod=r[3], checks=()) for r in rxs]
+dup = rxs[0] == rxs[1]
+try:
+    ReactionSystem(rxns, "A B C")
+    refused = None
+except ValueError as e:
+    refused = str(e)
+print(rxs, "duplicate:", dup, "refused:", refused)
+bad = (dup and not (refused and "Duplicate" in refused)) or (not dup and refused is not None)
+try:
+    ReactionSystem([Reaction({"A": 1}, {"Q": 1})], "A B C"); bad = True
+except ValueError:
+    pass
+try:
+    ReactionSystem([Reaction({"A": 1}, {"B": 1}, name="x"), Reaction({"B": 1}, {"C": 1}, name="x")], "A B C"); bad = True
+except ValueError:
+    pass
+sys.exit(1 if bad else 0)
+'''
+
+
+def task_constructor():
+    """constructor checks: duplicates refused <=> two reactions are equal; unknown keys and duplicate names refused"""
+    from chempy import Reaction, ReactionSystem
+    import chempy.chemistry as cc
+
+    cc.int = sym_int
+    keys = ["A", "B", "C"]
+    assum = []
+    rxs = _sym_rxs(2, keys, 0, 2, assum)
+
+    def fn():
+        rxns = [Reaction(dict(r[0]), dict(r[1]), 7, inact_reac=dict(r[2]), inact_prod=dict(r[3]), checks=()) for r in rxs]
+        for r in rxns:
+            r.string = lambda *a, **k: "<rxn>"
+        return ReactionSystem(rxns, keys)
+
+    same = z3.And(*[eq_term(rxs[0][i][k], rxs[1][i][k]) for i in range(4) for k in rxs[0][i]])
+
+    def goal(p, twin=False):
+        if p.kind == "exc":
+            if isinstance(p.value, ValueError) and "Duplicate reactions" in str(p.value):
+                return same if not twin else z3.Not(same)
+            return False
+        return z3.Not(same)
+
+    o = explore_and_prove(fn, assum, goal, max_paths=20000, deadline_s=300)
+    ot = explore_and_prove(fn, assum, lambda p: goal(p, True), max_paths=20000, deadline_s=60, max_fail=1)
+    bad = []
+    try:
+        ReactionSystem([Reaction({"A": 1}, {"Q": 1})], "A B C")
+        bad.append("unknown key accepted")
+    except ValueError:
+        pass
+    try:
+        ReactionSystem([Reaction({"A": 1}, {"B": 1}, name="x"), Reaction({"B": 1}, {"C": 1}, name="x")], "A B C")
+        bad.append("duplicate names accepted")
+    except ValueError:
+        pass
+    rs = ReactionSystem([Reaction({"B": 1}, {"A": 1})], "B A")
+    if list(rs.substances) != ["B", "A"] or list(ReactionSystem([Reaction({"B": 1}, {"A": 1})]).substances) != ["A", "B"]:
+        bad.append("substance ordering")
+    res = dict(engine="Z", functions=[env.describe(ReactionSystem.check_duplicate), env.describe(ReactionSystem.check_substance_keys),
+                                      env.describe(ReactionSystem.check_duplicate_names), env.describe(Reaction.__eq__)],
+               obligations=o.obligations + 1, discharged=o.discharged + (0 if bad else 1), violations=[], inconclusive=list(o.inconclusive),
+               queries=o.queries, paths=o.paths, solver_s=o.solver_s, twin="violated" if ot.failed else "passed",
+               bounds="2 reactions x 3 keys, coefficients 0..2 symbolic", sample={"claim": "constructor refuses <=> the two reactions are equal"})
+    for p, m, g in o.failed[:1]:
+        cr = [tuple(concretize(m, d) for d in r) for r in rxs]
+        res["violations"].append(dict(key="constructor:%s" % p.kind, soft=wrapper_exc(p.value), desc="reactions %s -> %r" % (cr, p.value),
+                                      replay_src=REPLAY_CTOR % dict(rxs=pyrepr(cr))))
+    if bad:
+        res["violations"].append(dict(key="constructor:" + bad[0], desc="; ".join(bad), replay_src=REPLAY_CTOR % dict(rxs="[({'A': 1}, {'B': 1}, {}, {}), ({'B': 1}, {'C': 1}, {}, {})]")))
+    res["status"] = "violation" if res["violations"] else ("inconclusive" if res["inconclusive"] else "discharged")
+    return res
+
+
 def tasks(tier, seed):
-    ts = []
+    ts = [dict(id="C15.constructor", fn="task_constructor", kwargs={}, timeout=900)]
     fam = [(0, 3, 2, 5), (1, 2, 3, 5), (2, 2, 2, 6), (3, 2, 2, 7), (2, 2, 3, 5)]
     if tier == "thorough":
         fam += [(0, 4, 2, 5), (3, 3, 2, 7), (1, 3, 3, 5), (0, 3, 3, 6)]
